@@ -5,7 +5,7 @@ func GetParameterSetsFromByteStream(data []byte) (vpss [][]byte, spss [][]byte, 
 	n := len(data)
 	currNaluStart := -1
 	totSize := 0
-	for i := 0; i < n-4; i++ {
+	for i := 0; i < n-3; i++ {
 		if data[i] == 0 && data[i+1] == 0 && data[i+2] == 1 {
 			if currNaluStart > 0 {
 				currNaluEnd := i
@@ -34,6 +34,20 @@ func GetParameterSetsFromByteStream(data []byte) (vpss [][]byte, spss [][]byte, 
 			if nextNaluType < 32 { // Video NALU types are below 32
 				break
 			}
+		}
+	}
+	if currNaluStart > 0 {
+		// Last NAL unit of the stream
+		switch GetNaluType(data[currNaluStart]) {
+		case NALU_VPS:
+			vpss = append(vpss, data[currNaluStart:n])
+			totSize += n - currNaluStart
+		case NALU_SPS:
+			spss = append(spss, data[currNaluStart:n])
+			totSize += n - currNaluStart
+		case NALU_PPS:
+			ppss = append(ppss, data[currNaluStart:n])
+			totSize += n - currNaluStart
 		}
 	}
 	psData := make([]byte, totSize)
